@@ -326,16 +326,43 @@ func TestVerifC17Fields(t *testing.T) {
 		return err
 	}
 	cases := []fieldCase{
-		{"pipeline.name", func(s *services, v string) error { _, err := s.pl.Update(ctx, "pl", pipeline.Config{Name: v, Description: "d"}); return err }},
-		{"pipeline.description", func(s *services, v string) error { _, err := s.pl.Update(ctx, "pl", pipeline.Config{Name: "p", Description: v}); return err }},
+		{"pipeline.name", func(s *services, v string) error {
+			_, err := s.pl.Update(ctx, "pl", pipeline.Config{Name: v, Description: "d"})
+			return err
+		}},
+		{"pipeline.description", func(s *services, v string) error {
+			_, err := s.pl.Update(ctx, "pl", pipeline.Config{Name: "p", Description: v})
+			return err
+		}},
 		{"pipeline.error", func(s *services, v string) error { return s.pl.UpdateStatus(ctx, "pl", pipeline.StatusDegraded, v) }},
-		{"pipeline.dlq.plugin", func(s *services, v string) error { _, err := s.pl.UpdateDLQ(ctx, "pl", pipeline.DLQ{Plugin: v, Settings: map[string]string{}, WindowSize: 2, WindowNackThreshold: 1}); return err }},
-		{"pipeline.dlq.settings.key", func(s *services, v string) error { _, err := s.pl.UpdateDLQ(ctx, "pl", pipeline.DLQ{Plugin: "x", Settings: map[string]string{v: "1"}}); return err }},
-		{"pipeline.dlq.settings.value", func(s *services, v string) error { _, err := s.pl.UpdateDLQ(ctx, "pl", pipeline.DLQ{Plugin: "x", Settings: map[string]string{"k": v}}); return err }},
-		{"connector.name", func(s *services, v string) error { _, err := s.conn.Update(ctx, "c1", "plug", connector.Config{Name: v, Settings: map[string]string{}}); return err }},
-		{"connector.plugin", func(s *services, v string) error { _, err := s.conn.Update(ctx, "c1", v, connector.Config{Name: "n", Settings: map[string]string{}}); return err }},
-		{"connector.settings.key", func(s *services, v string) error { _, err := s.conn.Update(ctx, "c1", "plug", connector.Config{Name: "n", Settings: map[string]string{v: "1"}}); return err }},
-		{"connector.settings.value", func(s *services, v string) error { _, err := s.conn.Update(ctx, "c1", "plug", connector.Config{Name: "n", Settings: map[string]string{"k": v}}); return err }},
+		{"pipeline.dlq.plugin", func(s *services, v string) error {
+			_, err := s.pl.UpdateDLQ(ctx, "pl", pipeline.DLQ{Plugin: v, Settings: map[string]string{}, WindowSize: 2, WindowNackThreshold: 1})
+			return err
+		}},
+		{"pipeline.dlq.settings.key", func(s *services, v string) error {
+			_, err := s.pl.UpdateDLQ(ctx, "pl", pipeline.DLQ{Plugin: "x", Settings: map[string]string{v: "1"}})
+			return err
+		}},
+		{"pipeline.dlq.settings.value", func(s *services, v string) error {
+			_, err := s.pl.UpdateDLQ(ctx, "pl", pipeline.DLQ{Plugin: "x", Settings: map[string]string{"k": v}})
+			return err
+		}},
+		{"connector.name", func(s *services, v string) error {
+			_, err := s.conn.Update(ctx, "c1", "plug", connector.Config{Name: v, Settings: map[string]string{}})
+			return err
+		}},
+		{"connector.plugin", func(s *services, v string) error {
+			_, err := s.conn.Update(ctx, "c1", v, connector.Config{Name: "n", Settings: map[string]string{}})
+			return err
+		}},
+		{"connector.settings.key", func(s *services, v string) error {
+			_, err := s.conn.Update(ctx, "c1", "plug", connector.Config{Name: "n", Settings: map[string]string{v: "1"}})
+			return err
+		}},
+		{"connector.settings.value", func(s *services, v string) error {
+			_, err := s.conn.Update(ctx, "c1", "plug", connector.Config{Name: "n", Settings: map[string]string{"k": v}})
+			return err
+		}},
 		{"connector.create.name+plugin", func(s *services, v string) error {
 			_, err := s.conn.Create(ctx, "c2", connector.TypeDestination, v, "pl", connector.Config{Name: v, Settings: map[string]string{v: v}}, connector.ProvisionTypeConfig)
 			return err
